@@ -195,7 +195,8 @@ def measure(ctx, eng):
         if not l.startswith("entry ") or " ; viol=" not in l:
             continue
         op, _, r = l.partition(" => ")
-        res, viol, bbr, conc = [x.strip() for x in r.split(";")]
+        res, viol, bbr, conc, fx = [x.strip() for x in r.split(";")]
+        d["capacity comparison: binary64 vs exact rational " + fx[3:]] += 1
         ms = sorted(set(viol[5:].split(","))) if viol[5:] else []
         d["inbound decisions"] += 1
         d["violated metric types: " + ("none" if not ms else "+".join(ms))] += 1
